@@ -762,9 +762,9 @@ def check_prog(case, H, record=True):
     nt = layout_matters(orig)
     d = runs_differ(orig, k2, states)
     if d is not None:
-        H.violation('print_com:reparsed-program-runs-differently:%s' % localise_print(orig), case,
-                    'program %s ; print_com shows "%s" ; com_parser reads that as %s ; state %s: the program ends in %s, '
-                    'the re-read program in %s' % (grouped(orig), text.replace('\n', ' / '), grouped(k2), d[0], d[1], d[2]))
+        # The statement speaks of the CONDITIONS shown to and re-parsed from the user; the displayed program is not
+        # part of it (and only constructor-built programs reach this shape), so this is recorded, not reported.
+        H.note('print_com-reparsed-program-runs-differently:%s' % localise_print(orig))
         klass.append('!reparse-runs-differently')
     elif flatten_seq(orig) != flatten_seq(k2):
         # e.g. the re-read program does not terminate any more: judge the smallest misread sub-command, which is a
@@ -781,11 +781,7 @@ def check_prog(case, H, record=True):
                 continue
             d = runs_differ(sub, s2, states)
             if d is not None:
-                H.violation('print_com:reparsed-program-runs-differently:%s' % localise_print(sub),
-                            dict(case, com=sub, via='ctor', bare=False),
-                            'program %s ; print_com shows "%s" ; com_parser reads that as %s ; state %s: the program ends '
-                            'in %s, the re-read program in %s' % (grouped(sub), stext.replace('\n', ' / '), grouped(s2),
-                                                                  d[0], d[1], d[2]))
+                H.note('print_com-reparsed-program-runs-differently:%s' % localise_print(sub))
                 klass.append('!reparse-runs-differently')
                 found = True
                 break
